@@ -173,6 +173,20 @@ class World:
         self.log.append({"op": "delete_page", "page": rel, "day": str(self.day)})
         return True
 
+    def restore_page(self):
+        """a page disappears, the index is brought up to date, and the very same file comes back (archive / git checkout)"""
+        files = self.files()
+        if len(files) < 2:
+            return False
+        rel = self.rng.choice(sorted(files))
+        text = files[rel]
+        (self.zdir / rel).unlink()
+        self.log.append({"op": "delete_page", "page": rel, "day": str(self.day)})
+        if self.run("db", "reindex") != 0:
+            return False
+        self.write(rel, text, "restore_page")
+        return True
+
     def rename_page(self):
         files = self.files()
         if not files:
